@@ -75,7 +75,13 @@ func runFull(cfg *hx.RunCfg, g *hx.Gen, dist map[string]int, fails *[]failure) [
 	l2r, l2w := net.Pipe()
 	var moved int64
 	bkCount := func() int { w.mu.Lock(); defer w.mu.Unlock(); return len(w.bk) }
-	rpCount := func() int { c := 0; for _, n := range w.recvCounts() { c += n }; return c }
+	rpCount := func() int {
+		c := 0
+		for _, n := range w.recvCounts() {
+			c += n
+		}
+		return c
+	}
 	go func() {
 		for p := range srvSendCh {
 			_ = msg.WriteMsg(l1w, p)
